@@ -326,9 +326,22 @@ impl<'a> B<'a> {
                 }
                 3 if self.p.short_circuit > 0 => {
                     let op = [BinOp::And, BinOp::Or][self.c.below(2)];
-                    let a = self.expr(Ty::Bool, d1);
                     let b = self.effectful_operand(Ty::Bool, d1);
-                    E::Bin(op, Box::new(a), Box::new(b))
+                    match self.c.below(4) {
+                        // a left operand that may be null at runtime (any-typed: the operation is
+                        // fallible and handled)
+                        0 if self.pure == 0 => E::Bin(
+                            BinOp::Err,
+                            Box::new(E::Bin(op, Box::new(E::Ev(self.ev_path())), Box::new(b))),
+                            Box::new(self.lit(Ty::Bool)),
+                        ),
+                        // a left operand that is the null literal: `null && b` is false, `null || b` is b
+                        1 => E::Bin(op, Box::new(E::Lit(TV::Null)), Box::new(b)),
+                        _ => {
+                            let a = self.expr(Ty::Bool, d1);
+                            E::Bin(op, Box::new(a), Box::new(b))
+                        }
+                    }
                 }
                 4 => E::Not(Box::new(self.expr(Ty::Bool, d1))),
                 5 => E::Exists(Target::Ev(self.ev_path())),
@@ -567,6 +580,11 @@ impl<'a> B<'a> {
             if self.p.shadowing && !shadow.is_empty() && self.c.chance(1, 2) {
                 params.push(shadow[self.c.below(shadow.len())].clone());
             } else {
+                // the key/index parameter of a two-parameter closure is sometimes the placeholder `_`
+                if nparams == 2 && i == 0 && self.c.chance(1, 4) {
+                    params.push("_".to_string());
+                    continue;
+                }
                 let mut n = PARAM_NAMES[(self.c.below(PARAM_NAMES.len()) + i) % PARAM_NAMES.len()].to_string();
                 while params.contains(&n) {
                     n.push('2');
